@@ -56,7 +56,7 @@ theorem aligned_run (t : Mesh) (q : List Step) (hq : ∀ s ∈ q, s.quiet = true
     · exact canon_step t s (hq s (by simp)) hc
     · exact aligned_step t s (hq s (by simp)) hc ha
 
-theorem locOf_modify (vs : List Vtx) (i j loc : Nat) (hi : i < vs.length) :
+theorem locOf_modify (vs : List Vtx) (i j : Nat) (loc : Pt) (hi : i < vs.length) :
     locOf (vs.modify i (fun v => { v with loc := loc })) j = if j = i then loc else locOf vs j := by
   unfold locOf
   rw [List.getElem?_modify]
@@ -214,6 +214,11 @@ theorem wf_step (m : Mesh) (s : Step) (h : WF m)
     · exact h
   | moveOnto r1 r2 =>
     simp only [step, moveOnto, moveVertex]
+    split
+    · exact h
+    · exact h
+  | translate r d =>
+    simp only [step, translateVertex, moveVertex]
     split
     · exact h
     · exact h
